@@ -20,7 +20,7 @@ for meta_path in sorted(glob.glob(os.path.join(ROOT, "seeded", "*", "meta.json")
                             capture_output=True, text=True)
         if ap.returncode != 0:
             print(sid, "PATCH-DOES-NOT-APPLY", ap.stderr.strip()[:200]); res.append((sid, "stale")); continue
-        p = subprocess.run([os.path.join(ROOT, "vcheck"), prop, "--no-evidence"], capture_output=True, text=True,
+        p = subprocess.run([os.path.join(ROOT, "vcheck"), prop, "--no-evidence", "--budget", "900"], capture_output=True, text=True,
                            cwd=ROOT, env=dict(os.environ, VERIF_REPO=wt), timeout=3000)
         lines = [l.strip() for l in p.stdout.splitlines() if l.startswith("VIOLATION") or l.strip().startswith("class=")]
         verdict = "CAUGHT" if p.returncode == 1 else f"MISSED(exit {p.returncode})"
